@@ -40,6 +40,15 @@ def classify(r):
     return "runtime-error", None
 
 
+SCENARIOS = [
+    ("rec-group-with-value-binding", "rec let f n : Int -> Int = if n == 0 then 0 else f (n - 1)\nlet big = f 3\nbig\n"),
+    ("nested-mixed-patterns", "type T = | S Int | N\nlet { eff } = import! host\nmatch { a = S (eff 1), b = (2, N) } with\n"
+                              "| { a = S 2, b } -> 0\n| { a = S k, b = (m, S _) } -> 1\n| { a = S k, b = (m, N) } -> k + m\n| _ -> 9\n"),
+    ("rec-group-of-functions", "rec let ev n : Int -> Int = if n == 0 then 1 else od (n - 1)\nlet od n : Int -> Int = if n == 0 then 0 else ev (n - 1)\nev 10\n"),
+    ("nested-patterns-total", "type T = | S Int | N\nmatch { a = S 1, b = (2, N) } with\n| { a = S k, b = (m, _) } -> k + m\n| { a = N, b = _ } -> 0\n"),
+]
+
+
 def run(tier):
     t0 = time.time()
     seed = vlib.seed()
@@ -110,6 +119,14 @@ def run(tier):
             j.update({"id": len(jobs), "src": wlib.render(t["p"])})
             meta[j["id"]] = ("wterm", {"p": t["p"], "ty": "?", "k": "wterm", "typable": t["ok"]}, s)
             jobs.append(j)
+    # hand-written members of program families the generators do not reach yet (each was found by reading the anchors;
+    # the generators grow towards them): a value binding inside a `rec` group, deeply nested mixed patterns
+    for name, src in SCENARIOS:
+        s = {"prelude": True, "optimize": True, "debug": True, "run_io": False, "full_metadata": False}
+        j = dict(s)
+        j.update({"id": len(jobs), "src": src})
+        meta[j["id"]] = ("scenario:" + name, {"p": [], "ty": "?", "k": "scenario"}, s)
+        jobs.append(j)
     # the generalisation-sensitive skeleton family of LangW.tla (a let-bound function whose type is tied to a lambda-bound
     # variable must not be generalised): accepted members must run without going wrong
     sk_terms, sr = c03.skeleton_terms(tier, seed)
@@ -137,7 +154,7 @@ def run(tier):
             V.divergence("checker stack overflow on an untypable term: %s" % j["src"].splitlines()[-1][:100])
             continue
         if c == "bad":
-            V.violation("%s:%s" % (kind.split(":")[0] if kind.startswith("module") else kind, key) if not kind.startswith("module") else "%s:%s" % (kind, key),
+            V.violation("%s:%s" % (kind, key),
                         "accepted program went wrong under settings %s (prelude,optimize,debug,run_io,full_metadata): %s\n%s" % (sk, r["msg"][:300], j["src"]), rep)
             continue
         if c == "rejected":
